@@ -21,6 +21,7 @@ import (
 	sdk "github.com/cosmos/cosmos-sdk/types"
 	distrtypes "github.com/cosmos/cosmos-sdk/x/distribution/types"
 	"github.com/cosmos/gogoproto/proto"
+	"github.com/palomachain/paloma/v2/x/skyway"
 	"github.com/palomachain/paloma/v2/x/skyway/keeper"
 	"github.com/palomachain/paloma/v2/x/skyway/types"
 	valsettypes "github.com/palomachain/paloma/v2/x/valset/types"
@@ -35,9 +36,10 @@ const (
 var typeNames = []string{"MsgSendToPalomaClaim", "MsgBatchSendToRemoteClaim", "MsgLightNodeSaleClaim"}
 
 const (
-	chainA    = "test-chain"
-	erc20A    = "0x0bc529c00C6401aEF6D220BE8C6Ea1667F6Ad93e"
-	saleAddrA = "0x5A1e000000000000000000000000000000005a1E"
+	chainA     = "test-chain"
+	chainUpper = "TEST-CHAIN"
+	erc20A     = "0x0bc529c00C6401aEF6D220BE8C6Ea1667F6Ad93e"
+	saleAddrA  = "0x5A1e000000000000000000000000000000005a1E"
 )
 
 // spec is a type-independent description of a claim body; unused fields are ignored by build.
@@ -248,6 +250,10 @@ func newEnv(t *testing.T, withBatch bool) *env {
 	in.SkywayKeeper.VerifC11SetPalomaKeeper(fakePaloma{calls})
 	if err := in.SkywayKeeper.SetAllLighNodeSaleContracts(ctx, []*types.LightNodeSaleContract{{ChainReferenceId: chainA, ContractAddress: saleAddrA}}); err != nil {
 		t.Fatal(err)
+	}
+	// a second registered chain whose reference id differs from the first one's only in letter case
+	if err := in.EvmKeeper.AddSupportForNewChain(ctx, chainUpper, 77, 123, "0x1234", big.NewInt(55)); err != nil {
+		t.Logf("cannot register %s: %v", chainUpper, err)
 	}
 	if withBatch {
 		// one outgoing batch (nonce 1, token erc20A) so that applying a batch claim has an observable effect
@@ -478,25 +484,63 @@ func (e *env) tallyDigest(c types.EthereumClaim) (dig string) {
 		len(changed), tmhash.Sum([]byte(strings.Join(changed, ";")))[:6])
 }
 
-// tally mimics x/skyway attestationTally for one chain with the exported keeper calls.
-func (e *env) tally(chain string) error {
-	attmap, keys, err := e.k.GetAttestationMapping(e.ctx, chain)
+// tally runs the end blocker's attestationTally for one chain.
+func (e *env) tally(chain string) (err error) {
+	defer func() {
+		if r := recover(); r != nil {
+			err = fmt.Errorf("panic: %v", r)
+		}
+	}()
+	// the end blocker's own attestationTally (hook VerifC02AttestationTally: no behaviour of its own)
+	return skyway.VerifC02AttestationTally(e.ctx, e.k, chain)
+}
+
+// powerOf: the staking power of the distinct voters of one stored attestation, and the power an attestation must exceed.
+func (e *env) powerOf(votes []int) (own, required sdkmath.Int) {
+	total, err := e.in.StakingKeeper.GetLastTotalPower(e.ctx)
 	if err != nil {
-		return err
+		panic(err)
 	}
-	for _, nonce := range keys {
-		for _, att := range attmap[nonce] {
-			last, err := e.k.GetLastObservedSkywayNonce(e.ctx, chain)
-			if err != nil {
-				return err
-			}
-			if nonce == last+1 {
-				a := att
-				if err := e.k.TryAttestation(e.ctx, &a); err != nil {
-					return err
-				}
-			}
+	required = types.AttestationVotesPowerThreshold.Mul(total).Quo(sdkmath.NewInt(100))
+	own = sdkmath.ZeroInt()
+	seen := map[int]bool{}
+	for _, v := range votes {
+		if v < 0 || seen[v] {
+			continue
+		}
+		seen[v] = true
+		p, err := e.in.StakingKeeper.GetLastValidatorPower(e.ctx, keeper.ValAddrs[v])
+		if err != nil {
+			panic(err)
+		}
+		own = own.Add(sdkmath.NewInt(p))
+	}
+	return own, required
+}
+
+// storeKeyOf: the raw-store key the KEEPER uses for the claim's attestation (written in a discarded cache context and
+// found by diffing the raw store) — as opposed to realKey, which is what the key must be.
+func (e *env) storeKeyOf(c types.EthereumClaim) []byte {
+	h, panicked := safeHash(c)
+	if panicked {
+		return realKey(c)
+	}
+	ctx, _ := e.ctx.CacheContext()
+	st := e.k.VerifC11RawStore(ctx)
+	before := map[string]bool{}
+	it := st.Iterator(nil, nil)
+	for ; it.Valid(); it.Next() {
+		before[string(it.Key())+"\x00"+string(it.Value())] = true
+	}
+	it.Close()
+	e.k.SetAttestation(ctx, c.GetChainReferenceId(), c.GetSkywayNonce(), h, &types.Attestation{Height: 424242424242})
+	var out []byte
+	it = st.Iterator(nil, nil)
+	for ; it.Valid(); it.Next() {
+		if !before[string(it.Key())+"\x00"+string(it.Value())] {
+			out = append([]byte{}, it.Key()...)
 		}
 	}
-	return nil
+	it.Close()
+	return out
 }
